@@ -16,7 +16,6 @@ import (
 	ecommon "github.com/ethereum/go-ethereum/common"
 	"github.com/ethereum/go-ethereum/core/types"
 	"github.com/ethereum/go-ethereum/crypto"
-	"github.com/polynetwork/poly/common"
 	"github.com/polynetwork/poly/native/service/utils"
 )
 
@@ -45,7 +44,7 @@ func borHeaderJSON(h *types.Header) []byte {
 	return b
 }
 
-func startBor(e *chainEnv, gnum uint64, producers []ecommon.Address, prop int, root ecommon.Hash) (*chainModel, error) {
+func prepareBor(e *chainEnv, gnum uint64, producers []ecommon.Address, prop int, root ecommon.Hash) *trustRoot {
 	e.epoch = borSprint
 	gnum = gnum - gnum%borSprint + 1 // first block after a sprint start: 254 further heights stay inside the sprint
 	set := sortAddrs(producers)
@@ -64,20 +63,15 @@ func startBor(e *chainEnv, gnum uint64, producers []ecommon.Address, prop int, r
 	if err != nil {
 		panic(err)
 	}
-	r := e.syncGenesis(gj, []common.Address{e.w.Operator()})
-	if !r.OK() {
-		return nil, fmt.Errorf("syncGenesisHeader: %v", r.Err)
-	}
-	e.w.NextBlock()
 	m := &chainModel{e: e, byHash: map[ecommon.Hash]*node{}, borSet: set, borProp: prop}
 	gn := &node{h: g, hash: g.Hash(), td: new(big.Int).Set(g.Difficulty), label: "genesis"}
 	m.genesis = gn
 	m.add(gn)
-	if e.storedRaw(gn.hash) == nil {
-		return nil, fmt.Errorf("genesis header not stored under its hash")
-	}
-	m.markStored(gn)
-	return m, nil
+	return &trustRoot{raw: gj, m: m}
+}
+
+func startBor(e *chainEnv, gnum uint64, producers []ecommon.Address, prop int, root ecommon.Hash) (*chainModel, error) {
+	return startRoot(prepareBor(e, gnum, producers, prop, root))
 }
 
 func (m *chainModel) borSuccession(a ecommon.Address) int {
@@ -241,6 +235,9 @@ func (m *chainModel) borBuildOp(op c29Op, p *node) (*types.Header, string) {
 func borFamily() *family {
 	return &family{
 		ad: borAdapter,
+		prepare: func(e *chainEnv, gnum uint64, vals []int, root ecommon.Hash) *trustRoot {
+			return prepareBor(e, gnum, addrList(vals), 0, root)
+		},
 		start: func(e *chainEnv, gnum uint64, nval int, root ecommon.Hash) (*chainModel, error) {
 			idx := make([]int, nval)
 			for i := range idx {
